@@ -220,39 +220,110 @@ def run(ctx):
                     written[attr] = (it.split(".")[-1], val)
     reset = {}
     split_iter = None
-    for n in ast.walk(split.node):
-        if isinstance(n, ast.For) and isinstance(n.iter, ast.Call) and isinstance(n.target, ast.Name):
+    split_form = None
+    split_region = None       # for the index-loop form: (rows lo, rows hi, cols lo, cols hi) as Poly over origin symbols
+    split_bounds_reread = []  # bounds evaluated again after the body has reset the attribute they read
+    from sa.guards import aliases as _aliases, norm as _norm
+
+    sal = _aliases(split.node)
+    for n in split.node.body:
+        if not isinstance(n, ast.For):
+            continue
+        if isinstance(n.iter, ast.Call) and isinstance(n.target, ast.Name) and (dotted(n.iter.func) or "").split(".")[-1].startswith("iter_"):
+            split_form = "iterator"
             split_iter = (dotted(n.iter.func) or "").split(".")[-1]
-            for m in ast.walk(n):
-                if isinstance(m, ast.Assign):
-                    v = prog.const(m.value, split.module)
-                    for t in m.targets:
-                        if isinstance(t, ast.Attribute) and dotted(t.value) == n.target.id:
-                            reset[t.attr] = v
+            tcv = n.target.id
+            inner = n
+        elif isinstance(n.iter, ast.Call) and dotted(n.iter.func) == "range" and len(n.body) == 1 and isinstance(n.body[0], ast.For) \
+                and isinstance(n.body[0].iter, ast.Call) and dotted(n.body[0].iter.func) == "range":
+            split_form = "index-loops"
+            inner = n.body[0]
+            tcv = None
+            for m in inner.body:
+                if isinstance(m, ast.Assign) and isinstance(m.value, ast.Call) and isinstance(m.value.func, ast.Attribute) and m.value.func.attr == "tc" \
+                        and [dotted(x) for x in m.value.args] == [n.target.id, inner.target.id]:
+                    tcv = m.targets[0].id
+
+            def rng_bounds(call):
+                a_ = call.args
+                lo = ast.Constant(0) if len(a_) == 1 else a_[0]
+                hi = a_[0] if len(a_) == 1 else a_[1]
+                return lo, hi
+
+            def P_(e):
+                import copy
+
+                class Ren(ast.NodeTransformer):
+                    def visit_Attribute(self_, x):
+                        d = _norm(x, sal)
+                        m_ = {"self._tc.row_idx": "top", "self._tc.col_idx": "left", "self._tc.rowSpan": "rowSpan", "self._tc.gridSpan": "gridSpan"}
+                        if d in m_:
+                            return ast.Name(id=m_[d], ctx=ast.Load())
+                        return self_.generic_visit(x)
+
+                    def visit_Name(self_, x):
+                        if x.id in sal:
+                            return self_.visit(copy.deepcopy(sal[x.id]))
+                        return x
+                return of_expr(Ren().visit(copy.deepcopy(e)))
+
+            (r0, r1), (c0, c1) = rng_bounds(n.iter), rng_bounds(inner.iter)
+            split_region = (P_(r0), P_(r1), P_(c0), P_(c1))
+            # the inner range() is evaluated once per outer iteration: it must not read what the body resets
+            for e in inner.iter.args:
+                for x in ast.walk(e):
+                    if isinstance(x, ast.Attribute) and x.attr in SPAN_ATTRS:
+                        split_bounds_reread.append(ast.unparse(x))
+        else:
+            continue
+        for m in ast.walk(inner):
+            if isinstance(m, ast.Assign):
+                v = prog.const(m.value, split.module)
+                for t in m.targets:
+                    if isinstance(t, ast.Attribute) and tcv and dotted(t.value) == tcv:
+                        reset[t.attr] = v
+    if split_form is None:
+        ctx.error("_Cell.split", "loop over the merged region not recognised (expected `for tc in <range>.iter_*()` or nested range() loops)")
     cmc = rng.methods.get("contains_merged_cell")
     tested = {}
     cmc_iter = None
+    cmc_form = None
     if cmc is None:
         raise AnalysisError("anchor vanished: TcRange.contains_merged_cell")
+
+    def span_tests(t, v):
+        out = {}
+        parts = t.values if isinstance(t, ast.BoolOp) and isinstance(t.op, ast.Or) else [t]
+        for e in parts:
+            if isinstance(e, ast.Compare) and (dotted(e.left) or "").startswith(v + ".") and isinstance(e.ops[0], ast.Gt) \
+                    and prog.const(e.comparators[0], cmc.module) == 1:
+                out[dotted(e.left).split(".")[1]] = ">1"
+            elif isinstance(e, ast.Attribute) and dotted(e.value) == v:
+                out[e.attr] = "truthy"
+            else:
+                out["?" + ast.unparse(e)[:30]] = "unrecognised"
+        return out
+
+    falls_false = False
     for n in ast.walk(cmc.node):
         if isinstance(n, ast.For) and isinstance(n.iter, ast.Call):
+            cmc_form = "loop"
             cmc_iter = (dotted(n.iter.func) or "").split(".")[-1]
             v = n.target.id
             for m in ast.walk(n):
                 if isinstance(m, ast.If) and any(isinstance(r, ast.Return) and prog.const(r.value, cmc.module) is True for r in m.body):
-                    t = m.test
-                    if isinstance(t, ast.Compare) and dotted(t.left).startswith(v + ".") and isinstance(t.ops[0], ast.Gt) \
-                            and prog.const(t.comparators[0], cmc.module) == 1:
-                        tested[dotted(t.left).split(".")[1]] = ">1"
-                    elif isinstance(t, ast.Attribute) and dotted(t.value) == v:
-                        tested[t.attr] = "truthy"
-                    elif isinstance(t, ast.BoolOp) and isinstance(t.op, ast.Or):
-                        for e in t.values:
-                            if isinstance(e, ast.Compare) and isinstance(e.ops[0], ast.Gt) and prog.const(e.comparators[0], cmc.module) == 1:
-                                tested[dotted(e.left).split(".")[1]] = ">1"
-                            elif isinstance(e, ast.Attribute):
-                                tested[e.attr] = "truthy"
-    falls_false = any(isinstance(st, ast.Return) and prog.const(st.value, cmc.module) is False for st in cmc.node.body)
+                    tested.update(span_tests(m.test, v))
+            falls_false = any(isinstance(st, ast.Return) and prog.const(st.value, cmc.module) is False for st in cmc.node.body)
+        if isinstance(n, ast.Return) and isinstance(n.value, ast.Call) and dotted(n.value.func) == "any" and n.value.args \
+                and isinstance(n.value.args[0], (ast.GeneratorExp, ast.ListComp)):
+            g = n.value.args[0]
+            if len(g.generators) == 1 and not g.generators[0].ifs and isinstance(g.generators[0].iter, ast.Call):
+                cmc_form = "any()"
+                cmc_iter = (dotted(g.generators[0].iter.func) or "").split(".")[-1]
+                tested.update(span_tests(g.elt, g.generators[0].target.id))
+                falls_false = True  # any() over no match is False
+    if cmc_form is None:
+        ctx.error("TcRange.contains_merged_cell", "scan not recognised (expected a loop returning True per test, or any(<tests> for tc in ...))")
     key = "span-vocabulary"
     probs = []
     if set(written) != SPAN_ATTRS:
@@ -371,7 +442,20 @@ def run(ctx):
                             o = src_names.get(dotted(c.func.value))
                             if isinstance(o, ast.Subscript) and prog.const(o.slice, mv.module) == 0 and dotted(o.value) == dotted(sl.value):
                                 origin_first = True
+    if split_form == "index-loops":
+        want = (_P("top"), _P("top+rowSpan"), _P("left"), _P("left+gridSpan"))
+        if split_bounds_reread:
+            ctx.violation("R14.3", "split:region", "the inner loop bound re-reads %s on every outer iteration, after the loop body has reset it: "
+                          "from the second row on only the first column is reset and the rest of the region stays spanned" % sorted(set(split_bounds_reread)),
+                          file=split.file, line=split.line)
+        elif split_region == want:
+            ctx.ok("R14.3", "split:region", sample={"rows": "[top, top+rowSpan)", "cols": "[left, left+gridSpan)", "bounds": "hoisted"})
+        else:
+            ctx.violation("R14.3", "split:region", "split resets rows [%r,%r) x cols [%r,%r), not the origin's span" % split_region,
+                          file=split.file, line=split.line)
     for user, it in (("contains_merged_cell", cmc_iter), ("split", split_iter), ("move_content_to_origin", mv_iter)):
+        if user == "split" and split_form != "iterator":
+            continue
         key = "%s:region" % user
         r = regions.get(it)
         if r is not None and same(r, WHOLE):
@@ -512,52 +596,96 @@ def run(ctx):
     if nt is None:
         raise AnalysisError("anchor vanished: CT_Table.new_tbl")
     params = [a.arg for a in nt.node.args.args]
-    env0 = {}
+    W = ("Emu", "int", "Length")
+    # pre-loop environment: quotient of a floor division is an opaque symbol q; the matching remainder is a - q*b, so
+    # identities hold for every value of the division (divmod / `//` with `%`)
+    pre = {}
+
+    def quotient(a_, b_):
+        return Poly.sym("<%s // %s>" % (ast.unparse(a_), ast.unparse(b_)))
+
+    def pre_expr(e):
+        if isinstance(e, ast.BinOp) and isinstance(e.op, ast.FloorDiv):
+            return quotient(e.left, e.right)
+        if isinstance(e, ast.BinOp) and isinstance(e.op, ast.Mod) and not isinstance(e.left, ast.Constant):
+            return of_expr(e.left, pre, W) - quotient(e.left, e.right) * of_expr(e.right, pre, W)
+        return of_expr(e, pre, W)
+
     loops = []
     for st in _body(nt):
-        if isinstance(st, ast.Assign) and isinstance(st.targets[0], ast.Name) and isinstance(st.value, ast.BinOp):
-            env0[st.targets[0].id] = st.value
+        if isinstance(st, ast.Assign) and len(st.targets) == 1:
+            t = st.targets[0]
+            if isinstance(t, ast.Name):
+                if isinstance(st.value, (ast.BinOp, ast.Name, ast.Constant)):
+                    pre[t.id] = pre_expr(st.value)
+            elif isinstance(t, ast.Tuple) and len(t.elts) == 2 and isinstance(st.value, ast.Call) and dotted(st.value.func) == "divmod" \
+                    and len(st.value.args) == 2 and all(isinstance(x, ast.Name) for x in t.elts):
+                a_, b_ = st.value.args
+                q = quotient(a_, b_)
+                pre[t.elts[0].id] = q
+                pre[t.elts[1].id] = of_expr(a_, pre, W) - q * of_expr(b_, pre, W)
         if isinstance(st, ast.For):
             loops.append(st)
 
     def loop_sum(loop, addcall, kw):
-        """Total of the per-iteration argument `kw` of `addcall` over `for i in range(n)` where the body may re-assign the
-        per-iteration variable in the last iteration (`if i == n - 1: v = E`).  Returns (n Poly, total Poly) or None."""
+        """Total of the per-iteration argument `kw` of `addcall` over `for i in range(n)`.  The loop body is executed
+        symbolically twice - for an ordinary iteration (`i == n-1` false) and for the last one (true); locals assigned in
+        the body are tracked (straight-line assignments, `if i == n-1:` blocks, conditional expressions on that test).
+        total = (n-1) * ordinary + last.  Returns (n, total, call) or None when the loop has another shape."""
         if not (isinstance(loop.iter, ast.Call) and dotted(loop.iter.func) == "range" and len(loop.iter.args) == 1
                 and isinstance(loop.target, ast.Name)):
             return None
         n = of_expr(loop.iter.args[0])
         i = loop.target.id
-        last_assign = {}
-        call = None
-        for st in loop.body:
-            if isinstance(st, ast.If) and isinstance(st.test, ast.Compare) and isinstance(st.test.ops[0], ast.Eq) \
-                    and dotted(st.test.left) == i and of_expr(st.test.comparators[0]) == n - Poly.const(1) and not st.orelse:
-                for s2 in st.body:
-                    if isinstance(s2, ast.Assign) and isinstance(s2.targets[0], ast.Name):
-                        last_assign[s2.targets[0].id] = s2.value
-                    else:
+
+        def is_last_test(t):
+            return isinstance(t, ast.Compare) and isinstance(t.ops[0], ast.Eq) and dotted(t.left) == i \
+                and of_expr(t.comparators[0]) == n - Poly.const(1)
+
+        def ev(e, env, last):
+            if isinstance(e, ast.IfExp) and is_last_test(e.test):
+                return ev(e.body if last else e.orelse, env, last)
+            if isinstance(e, ast.Call) and dotted(e.func) in W and len(e.args) == 1:
+                return ev(e.args[0], env, last)
+            if isinstance(e, ast.BinOp) and isinstance(e.op, (ast.Add, ast.Sub, ast.Mult)):
+                l, r = ev(e.left, env, last), ev(e.right, env, last)
+                return l + r if isinstance(e.op, ast.Add) else l - r if isinstance(e.op, ast.Sub) else l * r
+            return of_expr(e, env, W)
+
+        def run(last):
+            env = dict(pre)
+            val = None
+            for st in loop.body:
+                if isinstance(st, ast.If) and is_last_test(st.test) and not st.orelse:
+                    if last:
+                        for s2 in st.body:
+                            if isinstance(s2, ast.Assign) and isinstance(s2.targets[0], ast.Name):
+                                env[s2.targets[0].id] = ev(s2.value, env, last)
+                            else:
+                                return None
+                    continue
+                calls = [c for c in ast.walk(st) if isinstance(c, ast.Call) and isinstance(c.func, ast.Attribute) and c.func.attr == addcall]
+                if calls:
+                    c = calls[0]
+                    arg = next((k.value for k in c.keywords if k.arg == kw), None)
+                    if arg is None and c.args:
+                        arg = c.args[0]
+                    if arg is None:
                         return None
-            else:
-                for c in ast.walk(st):
-                    if isinstance(c, ast.Call) and isinstance(c.func, ast.Attribute) and c.func.attr == addcall:
-                        call = c
-        if call is None:
+                    val = (ev(arg, env, last), c)
+                    if isinstance(st, ast.Assign):
+                        continue
+                elif isinstance(st, ast.Assign) and isinstance(st.targets[0], ast.Name):
+                    env[st.targets[0].id] = ev(st.value, env, last)
+                elif isinstance(st, (ast.If, ast.While, ast.Try)):
+                    return None  # other control flow: not this idiom
+            return val
+
+        o, l = run(False), run(True)
+        if o is None or l is None:
             return None
-        arg = next((k.value for k in call.keywords if k.arg == kw), None)
-        if arg is None and call.args:
-            arg = call.args[0]
-        if arg is None:
-            return None
-        W = ("Emu", "int", "Length")
-        # value in ordinary iterations: variables keep their pre-loop (opaque) value
-        pre = {k: Poly.sym("<" + ast.unparse(v) + ">") for k, v in env0.items()}
-        v_ord = of_expr(arg, pre, W)
-        env_last = dict(pre)
-        for k, v in last_assign.items():
-            env_last[k] = of_expr(v, pre, W)
-        v_last = of_expr(arg, env_last, W)
-        return n, (n - Poly.const(1)) * v_ord + v_last, call
+        # a variable re-assigned in the last iteration must not be read by an ordinary iteration after it (it is the last)
+        return n, (n - Poly.const(1)) * o[0] + l[0], l[1]
 
     found = {}
     for lp in loops:
